@@ -64,6 +64,14 @@ CHECKS.update({
    technique='deterministic simulation: seeded construction / rebuild / copy / pickle / comparison / mutation-attempt histories under per-run cache sizes with eviction faults, judged against structural tuples and against a fault-free twin execution (large cache) of the same history',
    text='Histories of 30-160 operations over all nine lexical types and Argument (system predicates over-represented; open, vacuous and re-bound quantified items included) run under cache sizes 1..1000 with eviction faults placed at random and between taking an ident/spec and rebuilding from it; equality <=> structural identity, hash, one total order with type rank first, rebuild/copy/pickle equality and immutability are checked per operation, and the whole observation log must equal that of the large-cache twin.',
    note='Cache size 0 is unsupported by the package (import fails) and not judged.'),
+ 'C19': dict(engine='proofsim', level='exploration', ref='DESIGN.md §6 C19',
+   technique='deterministic simulation supplies the population: tableaux finished under seeded schedules and cut short at seeded step limits; every registered format x notation x seeded writer options rendered twice; the text rendering is parsed back and compared token by token with the branches',
+   text='Rendering is a pure function of a finished tableau; the simulation supplies the population the property quantifies over (completed valid/invalid tableaux and tableaux cut short at seeded step limits, with access, quit-flag and closure nodes in every logic family). For each: all formats x notations x writer options render without raising, twice identically; the text output is read back into structures whose root-to-leaf token lists must equal the branch tokens, with exactly one closure mark on closed branches.',
+   note='The written form of a sentence is taken from the writer\'s own LexWriter (C12 territory); sampling only.'),
+ 'C20': dict(engine='modelsim+proofsim', level='exploration', ref='DESIGN.md §6 C20',
+   technique='deterministic simulation: models produced by seeded model-API call histories and by open branches of seeded proof runs; the exported description is compared entry by entry with the model\'s own evaluator',
+   text='For models built by seeded API histories (insertion orders, repeated facts) and models read from open branches of seeded proof runs, in all logics: exported worlds and access pairs equal the model\'s, every listed letter/opaque value equals value_of at that world and every known one is listed, extension membership <=> T/B, anti-extension membership => F/B (and <= for explicitly interpreted tuples), two calls equal, sequences sorted.',
+   note='Anti-extension exactness is demanded for explicitly interpreted tuples only (see evidence assumptions).'),
 })
 
 NOT_APPLICABLE = {
